@@ -28,8 +28,12 @@ ENV.setdefault("GOCACHE", "/root/.cache/go-build")
 
 
 def sh(cmd, cwd=None, timeout=1200, inp=None, env=None):
-    p = subprocess.run(cmd, cwd=cwd, input=inp, stdout=subprocess.PIPE, stderr=subprocess.STDOUT,
-                       timeout=timeout, env=env or ENV, shell=isinstance(cmd, str))
+    try:
+        p = subprocess.run(cmd, cwd=cwd, input=inp, stdout=subprocess.PIPE, stderr=subprocess.STDOUT,
+                           timeout=timeout, env=env or ENV, shell=isinstance(cmd, str))
+    except subprocess.TimeoutExpired as e:
+        out = (e.stdout or b"").decode("utf-8", "replace")
+        return 124, out + "\n[check.py] command did not finish within %d s: %s" % (timeout, cmd if isinstance(cmd, str) else " ".join(cmd))
     return p.returncode, p.stdout.decode("utf-8", "replace")
 
 
